@@ -42,6 +42,7 @@ import (
 	"google.golang.org/protobuf/proto"
 	"google.golang.org/protobuf/reflect/protoregistry"
 	"google.golang.org/protobuf/types/known/emptypb"
+	"google.golang.org/protobuf/types/known/wrapperspb"
 
 	"verif/harness/c01"
 )
@@ -109,10 +110,25 @@ func (s *wstream) Recv(ctx context.Context, m proto.Message) error {
 			return nil
 		}
 		return block()
+	case "stall": // the target streams far more than the connection buffers hold (the client never reads), then waits
+		if k <= stallMsgs {
+			if k == 1 {
+				close(s.t.firstOut)
+			}
+			if sv, ok := m.(*wrapperspb.StringValue); ok {
+				sv.Value = stallPayload
+			}
+			return nil
+		}
+		return block()
 	default: // deadline: both sides idle
 		return block()
 	}
 }
+
+const stallMsgs = 64
+
+var stallPayload = strings.Repeat("x", 512<<10)
 func (s *wstream) Header() metadata.MD  { return nil }
 func (s *wstream) Trailer() metadata.MD { return nil }
 func (s *wstream) CloseSend()           {}
@@ -136,6 +152,7 @@ func newWDesc() *bridgedesc.Target {
 		Services: []bridgedesc.Service{{Name: "t.S", Methods: []bridgedesc.Method{
 			{RPCName: "/t.S/SS", Input: bridgedesc.ConcreteMessage[emptypb.Empty](), Output: bridgedesc.ConcreteMessage[emptypb.Empty](), ServerStreaming: true},
 			{RPCName: "/t.S/Bidi", Input: bridgedesc.ConcreteMessage[emptypb.Empty](), Output: bridgedesc.ConcreteMessage[emptypb.Empty](), ClientStreaming: true, ServerStreaming: true},
+			{RPCName: "/t.S/Big", Input: bridgedesc.ConcreteMessage[emptypb.Empty](), Output: bridgedesc.ConcreteMessage[wrapperspb.StringValue](), ClientStreaming: true, ServerStreaming: true},
 		}}},
 	}
 }
@@ -145,6 +162,9 @@ func (r wrouter) RouteHTTP(req *http.Request) (grpcadapter.ClientConn, routing.H
 	m := &svc.Methods[0]
 	if strings.HasPrefix(req.URL.Path, "/bidi") {
 		m = &svc.Methods[1]
+	}
+	if strings.HasPrefix(req.URL.Path, "/big") {
+		m = &svc.Methods[2]
 	}
 	return r.t, routing.HTTPRoute{Target: r.desc, Service: svc, Method: m,
 		Binding: &bridgedesc.Binding{HTTPMethod: "POST", Pattern: req.URL.Path, RequestBodyPath: "*"}}, nil
@@ -258,13 +278,14 @@ func runWeb(kv map[string]string) string {
 	t := &wtarget{sc: kv["sc"], n: n, code: codes.Code(code), closedCh: make(chan struct{}), firstOut: make(chan struct{}), finalCh: make(chan struct{})}
 	rt := wrouter{t: t, desc: newWDesc()}
 	limit := c01.PromptLimit
-	if t.sc == "deadline" {
+	if t.sc == "deadline" || t.sc == "stall" {
 		limit += webDeadlineMs * time.Millisecond
 	}
 	hdr := ""
-	if t.sc == "deadline" {
+	if t.sc == "deadline" || t.sc == "stall" {
 		hdr = fmt.Sprintf("%dm", webDeadlineMs)
 	}
+	stall := t.sc == "stall"
 
 	http.DefaultTransport.(*http.Transport).CloseIdleConnections()
 	time.Sleep(2 * time.Millisecond)
@@ -298,6 +319,10 @@ func runWeb(kv map[string]string) string {
 	case "ws":
 		if late.on {
 			o = webLate(srv.URL, t, hdr, limit, late, false)
+		} else if stall {
+			var release func()
+			o, release = webStall(srv.URL, hdr)
+			defer release()
 		} else {
 			o = webWS(srv.URL, t, hdr, limit)
 		}
@@ -321,6 +346,15 @@ func runWeb(kv map[string]string) string {
 	}
 	closed := within(t.closedCh)
 	handler := within(handlerDone)
+	if stall && !handler && !o.hsAt.IsZero() {
+		// a client that has stopped reading: the call ends at its deadline, the handler may then take up to
+		// wsCloseTimeout (the connection deadline armed by closeGracefully fails the blocked write and ends ReadLoop)
+		select {
+		case <-handlerDone:
+			handler = true
+		case <-time.After(time.Until(o.hsAt.Add(webDeadlineMs*time.Millisecond + closeTimeout() + c01.PromptLimit))):
+		}
+	}
 	if late.on && !handler && !o.hsAt.IsZero() {
 		// the closing handshake may legitimately take up to wsCloseTimeout after the client's part; not longer
 		select {
@@ -441,6 +475,33 @@ func webWS(base string, t *wtarget, hdr string, limit time.Duration) wobs {
 		}
 		return wobs{done: true, out: "wserr"}
 	}
+}
+
+// webStall: a transcoded-WebSocket client that completes the handshake and then never reads, writes or closes; its
+// receive buffer is small, so the bridge soon blocks inside a response write. The connection stays open until
+// release() (called when the case has been judged).
+func webStall(base string, hdr string) (wobs, func()) {
+	q := url.Values{}
+	q.Set("_metadata[grpc-timeout]", hdr)
+	d := websocket.Dialer{
+		HandshakeTimeout: 5 * time.Second,
+		NetDialContext: func(ctx context.Context, network, addr string) (net.Conn, error) {
+			conn, err := new(net.Dialer).DialContext(ctx, network, addr)
+			if err != nil {
+				return nil, err
+			}
+			if tc, ok := conn.(*net.TCPConn); ok {
+				_ = tc.SetReadBuffer(4096)
+			}
+			return conn, nil
+		},
+	}
+	start := time.Now()
+	c, _, err := d.Dial(wsURL(base)+"/big?"+q.Encode(), nil)
+	if err != nil {
+		return wobs{done: false, out: "dialerr"}, func() {}
+	}
+	return wobs{done: true, out: "stalled", hsAt: start}, func() { c.Close() }
 }
 
 // webGRPCWeb speaks raw HTTP/1.1 (complete request body, like a browser client).
@@ -667,6 +728,10 @@ func GenWeb(r *rand.Rand, tier string, emit func(string)) {
 		line(en, "gone", 1, 0)                               // client goes away mid-stream
 		line(en, "deadline", 0, 0)                           // both idle until the deadline
 	}
+	// a transcoded-WebSocket client that stops reading while the target streams 32 MiB, with a 200 ms deadline: the
+	// call must end and the handler return within deadline + wsCloseTimeout + 2 s although a response write is
+	// blocked on the connection (the closing deadline has to be armed BEFORE the close frame is written)
+	emit("web en=ws sc=stall n=0 code=0 want.done=1 want.out=stalled want.closed=1 want.handler=1 want.fwd=0 want.leak=0 want.streams=1 want.gor=0 want.hang=0")
 	// the late-client-message shape on both WebSocket entry points: after the target ended the call (OK / error,
 	// with and without responses), after the deadline fired, and after the client has received the close frame
 	lateLine := func(en, base, when string, nlate, n, code int) {
